@@ -15,16 +15,17 @@ META = {
         "category": "proof",
         "text": "Kernel-checked: (1) lockset_sound — for every access table satisfying raceFree and every well-formed execution of the abstract semantics that respects the table, "
                 "any two conflicting accesses of different goroutines are ordered by happens-before (all executions, all tables, Mutex and RWMutex modes); (2) repo_race_free — "
-                "the table regenerated from the working tree satisfies raceFree (evaluation over ~900 rows / 190 fields). PARTIAL by nature: the theorem is about the extracted "
+                "the table regenerated from the working tree satisfies raceFree (evaluation over ~1300 rows / 270 fields incl. package-level variables, protocol pages, codec objects and followed pointer aliases). PARTIAL by nature: the theorem is about the extracted "
                 "abstraction; that real executions respect the table (extractor soundness, field-identity aliasing, annotated hand-offs) is an assumption, sampled by race-detector runs.",
         "design_ref": "DESIGN.md §7 C10",
     },
-    "level_note": "Weakest fit of the twenty (stated in DESIGN.md): proof over an extracted abstraction + race-detector sampling. Trusted/assumed: the go/types extractor "
-                  "(syntactic must-locksets; interface and function-value calls not followed; pointer aliasing such as &c.rbuf handed to messageSetReader not followed; locks and "
-                  "fields identified by Type.field, not by instance); the reviewed annotations in go/extract/access_annotations.json (closure locks of Conn.do, the read-lock hand-off "
-                  "waitResponse→Batch, ownership tokens for writeBatch / Writer.writerStats / Reader.cancel, SASL-before-publication, atomic stats types); the Go memory model as "
-                  "abstracted in Model/Lockset.lean (channels, Once, WaitGroup only as tokens); the race detector only sees the schedules that happened. protocol/buffer.go page "
-                  "ref-counts and the per-call codec reader/writer objects are outside the table (exercised by the detector runs only).",
+    "level_note": "Weakest fit of the twenty (stated in DESIGN.md): proof over an extracted abstraction + race-detector sampling. Trusted/assumed (docs/notes/C10.md, "
+                  "section `What Respects assumes`, U1-U8, with regression patches seeded/C10-unsound-*): the go/types extractor (syntactic must-locksets; interface calls "
+                  "by class-hierarchy edges; function values and go-targets from the empty lockset; pointer aliases followed only from &x.f call arguments into struct fields; "
+                  "locks and fields identified by Type.field, not by instance; unlocks through unnamed *sync.Mutex locals ignored); the reviewed annotations in "
+                  "go/extract/access_annotations.json (closure locks of Conn.do, the read-lock hand-off waitResponse→Batch incl. the data-dependent guard batch.err, ownership "
+                  "tokens for writeBatch / Writer.writerStats / Reader.cancel / protocol pages / per-call codec objects, SASL-before-publication, atomic stats types); the Go "
+                  "memory model as abstracted in Model/Lockset.lean (channels, Once, WaitGroup, Pool only as tokens); the race detector only sees the schedules that happened.",
 }
 
 MODULE = "KafkaVerif.Props.C10"
@@ -88,10 +89,10 @@ def run(ctx):
     ctx.assumptions += [
         "real executions respect the extracted table: every access to a field of a tracked type is one of the tabulated sites and happens while the recorded locks are held (extractor soundness; sampled by the race detector)",
         "aliasing by field identity: a lock / field is identified by Type.field; holding Type.mutex of one instance while touching another instance's field is not distinguished",
-        "calls through interfaces and function values, and pointers to fields handed elsewhere (e.g. &c.rbuf inside messageSetReader), are not followed by the extractor",
+        "interface calls are approximated by edges to every implementing method, function values start from the empty lockset; pointers to fields are followed only from &x.f call arguments into struct fields (readerStack.reader → Conn.rbuf); escapes through locals/returns/maps/channels are not (notes U2)",
         "hand-offs listed in go/extract/access_annotations.json (closure_locks, call_acquires, tokens, ctor_funcs, atomic_types) hold as justified there; tokens stand for channel/Once/WaitGroup ordering",
         "Go memory model as abstracted in Model/Lockset.lean: program order, unlock→lock (RUnlock↛RLock), go statement; atomics are race free among themselves",
-        "race-detector validation covers only the schedules that occurred in the generated programs (quick: 8 scenarios × 8 rounds; thorough: × 500 rounds × 4 seeds, GOMAXPROCS 2/4/8/16)",
+        "race-detector validation covers only the schedules that occurred in the generated programs (quick: 10 scenarios × 8 rounds; thorough: × 500 rounds × 4 seeds, GOMAXPROCS 2/4/8/16)",
     ]
     broken = []
     # ---- 1. regenerate the table
